@@ -1,4 +1,5 @@
 import BoxoModel.C39.Model
+import BoxoModel.C39.Mime
 /-! Line-protocol driver for C39. Tree tokens (prefix notation):
 `f <name> <mode> <mtime> <content>` | `l <name> <mtime> <target>` | `d <name> <mode> <mtime> <nkids> kids…`;
 a tree is `<nkids> kids…`; mtime is `-` or `<secs>:<nsecs>`; strings are hex. -/
@@ -90,6 +91,27 @@ def step (line : String) : String :=
   match (line.trimAscii.toString.splitOn " ").filter (· ≠ "") with
   | ["case", n] => s!"case {n}"
   | ["end"] => "end"
+  | "hdr" :: form :: mode :: mt :: nm :: [] =>
+    -- the Content-Disposition value for (form, mode, mtime, escaped file name) and what the modelled
+    -- fragment of mime.ParseMediaType reads back from it
+    match mode.toNat?, parseMtime mt, unhex nm with
+    | some m, some t, some nm =>
+      let fe := (mkPart (form == "1") [[]] nm m t .file [] []).filename
+      let h := dispositionHeader (form == "1") m t fe
+      match partFieldsOf h with
+      | some (f, nm, file) => s!"{hex h} {if f then 1 else 0} {hex nm} {hex file}"
+      | none => s!"{hex h} unparsed"
+    | _, _, _ => "bad-op"
+  | "mparse" :: v :: [] =>
+    -- the modelled fragment of mime.ParseMediaType on an arbitrary header value
+    match unhex v with
+    | some v =>
+      match parseMediaType v with
+      | some (mt, ps) =>
+        let items := (ps.map fun kv => hex kv.1 ++ ":" ++ hex kv.2).toArray.qsort (· < ·) |>.toList
+        s!"ok {hex mt} " ++ (if items.isEmpty then "=" else ",".intercalate items)
+      | none => "none"
+    | none => "bad-op"
   | "ser" :: form :: n :: ts =>
     match n.toNat? with
     | some n =>
